@@ -156,7 +156,15 @@ def rule_nonempty_changes(ctx, rep):
         for c in changeset_calls(ctx, fn):
             a = kwarg(c, "changes")
             v = r.expand(a) if a is not None else None
-            ok = isinstance(v, ast.Call) and last_attr(v.func) == "build_changes" and v.args and isinstance(v.args[0], ast.Name) and v.args[0].id in fn.params()
+            first = None
+            if isinstance(v, ast.Call) and last_attr(v.func) == "build_changes":
+                bc_ = ctx.prog.func("codemodder.dependency_management.base_dependency_writer.DependencyWriter.build_changes")
+                from ..model import bind_args
+
+                b = bind_args(v, bc_, True)
+                ps_ = bc_.positional_params()
+                first = b.get(ps_[1]) if len(ps_) > 1 else None
+            ok = isinstance(first, ast.Name) and first.id in fn.params()
             rep.check("R-NONEMPTY-CHANGES", fn.qname, fn.loc(c), ok, "changes", "writer's ChangeSet.changes is not build_changes(<dependencies parameter>, ...)")
     w = ctx.prog.func("codemodder.dependency_management.base_dependency_writer.DependencyWriter.write")
     fa = ctx.flow(w)
